@@ -97,6 +97,16 @@ pub fn gen_case(t: &mut Tape) -> Case {
             gen::parse_hir(&p, ci, pat.unicode, pat.term == Term::Crlf, false)
         })
         .collect();
+    let mut pat = pat;
+    if pat.term != Term::Nul && t.chance(1, 20) {
+        // a raw line terminator byte inside a pattern (-F $'a\nb'): the builder must reject it; if it
+        // accepted it, a match could straddle two lines and neither of them contains the pattern
+        let i = t.below(pat.patterns.len());
+        let p = &mut pat.patterns[i];
+        let cuts: Vec<usize> = p.char_indices().map(|(k, _)| k).chain(std::iter::once(p.len())).collect();
+        let at = cuts[t.below(cuts.len())];
+        p.insert_str(at, "\n");
+    }
     let input = gen::gen_haystack(t, &hirs, pat.term, 12);
     let case_twin = pat.patterns.len() >= 2 && pat.patterns.iter().skip(1).any(|p| p.to_lowercase() == pat.patterns[0].to_lowercase() && *p != pat.patterns[0]);
     Case {
